@@ -18,6 +18,7 @@ import (
 	cryptotypes "github.com/cosmos/cosmos-sdk/crypto/types"
 	"github.com/cosmos/cosmos-sdk/simapp/helpers"
 	sdk "github.com/cosmos/cosmos-sdk/types"
+	authtypes "github.com/cosmos/cosmos-sdk/x/auth/types"
 	"github.com/ethereum/go-ethereum/accounts/abi"
 	"github.com/ethereum/go-ethereum/common"
 	ethtypes "github.com/ethereum/go-ethereum/core/types"
@@ -58,7 +59,19 @@ const (
 	c03AccFwd      = 10 // the forwarder (batching) contract, hand-assembled, deployed on every chain
 	c03AccEmitter  = 11 // a contract that emits PacketSent-shaped logs (it is not the packet contract)
 	c03AccSwitch   = 12 // a callback contract with a switch: while it is on, every call to it reverts
-	c03NAcc        = 13
+	// module accounts of the app (the same addresses on every chain): the bank refuses to credit the native coin to them
+	// ("blocked addresses"). (The distribution account, the only module account allowed to receive, is left out: any direct
+	// credit to it — a plain bank send just as well — breaks the distribution module's own accounting invariant and the
+	// crisis module halts the chain at the next invariant check; that is outside this property.)
+	c03AccGov       = 13
+	c03AccFeeColl   = 14
+	c03AccIbcTransf = 15
+	c03AccBonded    = 16
+	c03AccNotBonded = 17
+	c03AccPacketMod = 18 // the xibc packet module account = the sender of the module's own EVM calls
+	c03AccAggregate = 19
+	c03AccEvmMod    = 20
+	c03NAcc         = 21
 )
 
 type c03PacketRec struct {
@@ -104,6 +117,10 @@ func newC03World(t *testing.T) *c03World {
 	w.acc[c03AccRelayer] = common.HexToAddress("0x00000000000000000000000000000000000c03e1")
 	w.acc[c03AccU6] = common.HexToAddress("0x00000000000000000000000000000000000c03a6")
 	w.acc[c03AccU7] = common.HexToAddress("0x00000000000000000000000000000000000c03a7")
+	for a, name := range map[int]string{c03AccGov: "gov", c03AccFeeColl: "fee_collector", c03AccIbcTransf: "transfer", c03AccBonded: "bonded_tokens_pool",
+		c03AccNotBonded: "not_bonded_tokens_pool", c03AccPacketMod: packettypes.SubModuleName, c03AccAggregate: aggregatetypes.ModuleName, c03AccEvmMod: evm.ModuleName} {
+		w.acc[a] = common.BytesToAddress(authtypes.NewModuleAddress(name).Bytes())
+	}
 	w.keys = map[int]cryptotypes.PrivKey{c03AccUser: w.ch[0].SenderPrivKey}
 	for _, a := range []int{c03AccU8, c03AccU9} {
 		k, err := ethsecp256k1.GenerateKey()
@@ -181,7 +198,8 @@ func (w *c03World) relayerTag(p, q int) string { return c03TagString(p*16 + q) }
 func (w *c03World) rank(acct int) int {
 	mine := sdk.AccAddress(w.acc[acct].Bytes()).String()
 	r := 0
-	for _, a := range []int{c03AccUser, c03AccRelayer, c03AccU6, c03AccU7, c03AccU8, c03AccU9} {
+	for _, a := range []int{c03AccUser, c03AccRelayer, c03AccU6, c03AccU7, c03AccU8, c03AccU9, c03AccGov, c03AccFeeColl, c03AccIbcTransf, c03AccBonded,
+		c03AccNotBonded, c03AccPacketMod, c03AccAggregate, c03AccEvmMod} {
 		if sdk.AccAddress(w.acc[a].Bytes()).String() < mine {
 			r++
 		}
